@@ -19,7 +19,7 @@ func init() {
 	register(&Family{
 		Name:    "msgflow",
 		Run:     runMsgflow,
-		Oracles: []func(*World, *History){OracleC01},
+		Oracles: []func(*World, *History){OracleC01, OracleLeak},
 		Nontrivial: func(w *World, h *History) bool {
 			return h.Derived["probe.rpcs_overlapped"] > 0 || h.Derived["probe.message_multi_chunk"] > 0
 		},
@@ -113,8 +113,8 @@ func runMsgflow(w *World, rs *RunSpec) {
 	}
 	cs := w.StartCallers(plans)
 	cs.Wait()
-	w.Drain()
-	w.Shutdown()
+	w.DrainAndProbe()
+	w.FullShutdown()
 }
 
 // Drain waits until nothing is runnable and no timer will change that, and marks
